@@ -348,7 +348,7 @@ func c14Long(n int) tval {
 func C14Plan() *vlib.Plan {
 	p := &vlib.Plan{
 		Property: "C14", Level: "exploration",
-		Rule:   "E-ENUM: every value of the boundary catalogue (+-2^k, +-2^k+-1 through every width wrapper, all 256 chars, doubles = exponents x 6 mantissa patterns x sign + subnormals, all UTF-8 strings <= 3 symbols over {a,e-acute,euro,space,quote}, strings of length 16384+-2 and 1MiB+-34) and every sequence <= 3 of 8 representative values, x {plain, AES-GCM}: (1) real Put* bytes == independent encoder bytes; (2) reference payload re-cut at every position (every pair of positions for payloads <= 40 bytes) and reference-framed must be decoded by the real Get* to the original. Non-trivial = each distinct (value, mode, cut set) evaluation.",
+		Rule:   "E-ENUM: every value of the boundary catalogue (+-2^k, +-2^k+-1 through every width wrapper, all 256 chars, doubles = exponents x 6 mantissa patterns x sign + subnormals, all UTF-8 strings <= 3 symbols over {a,e-acute,euro,space,quote}, strings of length 16384+-2 and 1MiB+-34, alone and right after / before a still-buffered char or int for lengths 12 below to 2 above 16 KiB and 1 MiB) and every sequence <= 3 of 8 representative values, x {plain, AES-GCM}: (1) real Put* bytes == independent encoder bytes; (2) reference payload re-cut at every position (every pair of positions for payloads <= 40 bytes) and reference-framed must be decoded by the real Get* to the original. Non-trivial = each distinct (value, mode, cut set) evaluation.",
 		Assume: []string{"doubles compared within 2^-30 relative (format precision); NaN/Inf excluded (statement says finite)"},
 	}
 	p.Gen = func(tier string, yield func(vlib.Case)) {
@@ -424,6 +424,23 @@ func C14Plan() *vlib.Plan {
 			}
 			for _, n := range lens {
 				yield(run(fmt.Sprintf("long/%d/enc=%v", n, enc), []tval{c14Long(n)}, enc, "boundary"))
+			}
+			// a long string AFTER values that are still buffered in the same message (and before
+			// one): the encoder must flush what is pending rather than outgrow a frame
+			for _, pend := range []tval{{kind: "char", i: 7}, {kind: "int", i: -2}} {
+				var ns []int
+				for d := -12; d <= 2; d++ {
+					ns = append(ns, 16384+d, 1<<20+d)
+				}
+				for _, n := range ns {
+					if tier != "thorough" && n > 1<<19 && (n-(1<<20))%2 != 0 && n < 1<<20-10 {
+						continue
+					}
+					yield(run(fmt.Sprintf("pending-%s+long/%d/enc=%v", pend.kind, n, enc), []tval{pend, c14Long(n)}, enc, "boundary"))
+					if n%4 == 0 {
+						yield(run(fmt.Sprintf("long+%s/%d/enc=%v", pend.kind, n, enc), []tval{c14Long(n), pend}, enc, "boundary"))
+					}
+				}
 			}
 			// sequences of <= 3 representative values
 			reps := []tval{{kind: "int", i: -2}, {kind: "uint32", i: 4000000000}, {kind: "char", i: 0}, {kind: "char", i: 255}, {kind: "double", f: -1234.5678e-200}, {kind: "string", s: ""}, {kind: "string", s: "é\"a"}, {kind: "int64", i: math.MinInt64}}
